@@ -130,6 +130,7 @@ def verify_function(make_ctx, reg, qualname, timeout_ms=10000, both=False):
         run.n_assume = len(run.pc)
         run.old_state = S.snapshot(run, env)
         run.track_params = {p: True for p in c.get("reads_not", [])}
+        run.track_vals = {id(env[p]): p for p in c.get("reads_not", []) if env.get(p) is not None}
         args = [env[a.arg] for a in fi.node.args.args]
         kwargs = {a.arg: env[a.arg] for a in fi.node.args.kwonlyargs}
         if fi.node.args.vararg is not None:
@@ -154,8 +155,9 @@ def verify_function(make_ctx, reg, qualname, timeout_ms=10000, both=False):
         fname = qualname.split(":")[1]
         if outcome[0] == "normal":
             result = outcome[1]
+            genv = dict(pf.env)
             for gu in (k["ghost_init"] if (k is not None and is_init) else []) + c["ghost_update"]:
-                exec_ghost(it, reg, gu, pf, result, run.old_state)
+                exec_ghost(it, reg, gu, pf, result, run.old_state, genv)
             for use in c.get("use_exit", []):
                 reg.use_lemma(it, use, pf)
             for etype, spec in c["raises"].items():
@@ -266,9 +268,9 @@ def eval_in_old(it, reg, text, fr, old):
         run.heap, run.ghost = cur_heap, cur_ghost
 
 
-def exec_ghost(it, reg, text, fr, result, old):
+def exec_ghost(it, reg, text, fr, result, old, genv=None):
     tree = ast.parse(text.strip())
-    sf = X.Frame(dict(fr.env), fr.fi, fr.cls, module=fr.module)
+    sf = X.Frame(genv if genv is not None else dict(fr.env), fr.fi, fr.cls, module=fr.module)
     sf.spec = X.SpecEnv()
     sf.spec.allow_write = True
     sf.spec.old = old
